@@ -536,7 +536,9 @@ func reifyMergeValue(
 	case reflect.Struct:
 		sub, err := val.toConfig(opts.opts)
 		if err != nil {
-			return reflect.Value{}, raiseExpectedObject(opts.opts, val)
+			// struct types unpacked from primitive values (e.g. regexp.Regexp),
+			// like in reifyValue
+			return reifyPrimitive(opts, val, t, baseType)
 		}
 		return oldValue, reifyStruct(opts.opts, old, sub)
 
